@@ -66,29 +66,14 @@ def run(tier, seed, replay=None, with_spans=False, prop="C04"):
                     {"case": c, "result": r, "failed": "harness observation"}, found_input=False)
     flag = "true" if with_spans else "false"
     bad, errors = vlib.coq_eval(prop, errgen.HEADER04, terms, "run04 " + flag + " %s")
-    for e in errors[:3]:
-        R.violation("coq-eval", "model evaluation failed: " + e[:1500], {"failed": "coqc cases", "log": e},
-                    found_input=False)
-    # decide
-    holds_fail = [i for i, (a, h) in bad.items() if not h]
-    agree_fail = [i for i, (a, h) in bad.items() if h and not a]
-    def replay_of(i, failed):
-        model = vlib.coq_print(prop, errgen.HEADER04,
-                               "Definition c := %s.\nEval vm_compute in (model_outcome04 (c_sugg c) (sim_of (c_sim c)) (c_expr c))." % terms[i])
-        return {"case": cases[i], "observation": results.get(i), "model": model[-6000:],
-                "agree": bad[i][0], "holds": bad[i][1], "failed": failed}
-    for i in sorted(holds_fail, key=lambda i: errgen.bexpr_stats(exprs[i])["nodes"])[:3]:
-        R.violation(classify(exprs[i], results.get(i), with_spans),
-                    "%s fails on the implementation's own output for builder expression %s"
-                    % (prop, json.dumps(exprs[i])[:600]), replay_of(i, "holds04 (Exec/ErrObs.v)"))
-    if agree_fail and not holds_fail:
-        i = min(agree_fail, key=lambda i: errgen.bexpr_stats(exprs[i])["nodes"])
-        R.violation("correspondence", "model and implementation disagree on %d cases (smallest: %s) but the "
-                    "property predicate holds on every observed output" % (len(agree_fail), json.dumps(exprs[i])[:600]),
-                    replay_of(i, "correspondence agree04 (Exec/ErrObs.v) — theorems of Properties/%s.v no longer apply to the code" % prop),
-                    found_input=False)
-    elif agree_fail:
-        pass  # already reported through holds_fail
+    vlib.decide(R, terms, bad, errors,
+                describe=lambda i: "builder expression " + json.dumps(exprs[i]),
+                model_body="Eval vm_compute in (model_outcome04 (c_sugg c) (sim_of (c_sim c)) (c_expr c)).",
+                key_fn=lambda i: classify(exprs[i], results.get(i), with_spans),
+                size_fn=lambda i: errgen.bexpr_stats(exprs[i])["nodes"],
+                header=errgen.HEADER04, results=results, cases=cases,
+                failed_holds="holds04 (Exec/ErrObs.v)",
+                failed_agree="correspondence agree04 (Exec/ErrObs.v): the theorems of Properties/%s.v no longer apply to the code" % prop)
     # evidence
     stats = [errgen.bexpr_stats(e) for e in exprs]
     ops = {}
@@ -112,7 +97,6 @@ def run(tier, seed, replay=None, with_spans=False, prop="C04"):
         "samples": [exprs[i] for i in (0, 3, 7, len(exprs) // 2, len(exprs) - 1) if i < len(exprs)],
         "distribution": {"operators": ops, "max_depth": max(s["depth"] for s in stats),
                          "max_nodes": max(s["nodes"] for s in stats), "outcomes": outcomes},
-        "disagreements": len(agree_fail), "property_failures": len(holds_fail),
     })
     R.assumptions = ["spans are proc-macro2 fallback spans (span-locations) of tokens parsed from text",
                      "strsim::jaro_winkler enters the model as a per-case table (bit patterns of the f64 scores)"]
